@@ -450,6 +450,10 @@ func MillerLoopFixedQ(P []G1Affine, lines [][2][len(LoopCounter) - 1]LineEvaluat
 		return GT{}, errors.New("invalid inputs sizes")
 	}
 
+	// the lines are evaluated at P in place below: work on a private copy so that
+	// the caller's precomputed lines stay valid for the next call
+	lines = append(lines[:0:0], lines...)
+
 	// no need to filter infinity points:
 	// 		1. if Pᵢ=(0,0) then -x/y=1/y=0 by gnark-crypto convention and so
 	// 		lines R0 and R1 are 0. It happens that result will stay, through
